@@ -138,9 +138,12 @@ Definition parse_component (s : gostring) (d : Z) : pstep :=
             let pre := negb (len s =? len s1) in
             let '(f, scale, s2, post) :=
               match s1 with
-              | 46 :: t => let '(f, scale, r) := leading_fraction t 0 1 false in
-                           (f, scale, r, negb (len t =? len r))
-              | _ => (0, 1, s1, false)
+              | c1 :: t =>
+                  if c1 =? 46 then
+                    let '(f, scale, r) := leading_fraction t 0 1 false in
+                    (f, scale, r, negb (len t =? len r))
+                  else (0, 1, s1, false)
+              | [] => (0, 1, s1, false)
               end in
             if negb pre && negb post then SErr
             else
@@ -184,9 +187,8 @@ Fixpoint parse_loop (fuel : nat) (s : gostring) (d : Z) : presult :=
 Definition parse_duration (orig : gostring) : presult :=
   let '(neg, s) :=
     match orig with
-    | 45 :: t => (true, t)
-    | 43 :: t => (false, t)
-    | _ => (false, orig)
+    | c :: t => if c =? 45 then (true, t) else if c =? 43 then (false, t) else (false, orig)
+    | [] => (false, orig)
     end in
   if eqb_str s [48] then PVal 0
   else match s with
